@@ -113,7 +113,7 @@ def main():
                      {"name": "apalache", "path": "/opt/veriftools/apalache/bin/apalache-mc", "serves_properties": ["C20"],
                       "kind_free_text": "inductive invariants of the reader-writer lock model (spec/RWLockInd.tla) and of the lazy-table model (spec/LazyTableInd.tla, every table length up to 32 / 128 in one run): Init => IndInv, IndInv /\\ Next => IndInv', IndInv => safety, for fixed numbers of threads and any number of steps / passes; TLC binds the Apalache-typed restatement to the TLC model; in addition to, not instead of, the TLC checks"}],
          "checks": [], "not_applicable": [],
-         "notes": "All checks: bin/check <id> --tier quick|thorough. Exit 0 held, 1 VIOLATION, 2 machinery failure. Known findings: known_findings.json. Every check runs twice: normally, and in a child interpreter started with python -O -W error::DeprecationWarning (C10, C12, C15 additionally in the bare C locale); TLC runs that do not depend on the implementation are shared between the passes (VERIF_SECOND_PASS=0 switches the second pass off). Replay files record the interpreter flags. Seeded-change evaluation: tools/eval_mutants.py (DESIGN.md 9.7 - 9.13); behaviour-preserving changes (false-alarm test): tools/eval_benign.py, seeded/benign, seeded/benign2 (DESIGN.md 9.14)."}
+         "notes": "All checks: bin/check <id> --tier quick|thorough. Exit 0 held, 1 VIOLATION, 2 machinery failure. Known findings: known_findings.json. Every check runs twice: normally, and in a child interpreter started with python -O -W error::DeprecationWarning (C10, C12, C15 additionally in the bare C locale); TLC runs that do not depend on the implementation are shared between the passes (VERIF_SECOND_PASS=0 switches the second pass off). Replay files record the interpreter flags. Seeded-change evaluation: tools/eval_mutants.py (DESIGN.md 9.7 - 9.13); behaviour-preserving changes (false-alarm test): tools/eval_benign.py, seeded/benign, seeded/benign2, seeded/benign3 (DESIGN.md 9.14)."}
     for p in props:
         pid = p["id"]
         if pid in CHECKS:
